@@ -139,8 +139,17 @@ def full_runs(run, rnd):
 
 def check(run, cases=None):
     cases = cases if cases is not None else gen(run.tier, run.seed)
-    pairs = c03.evaluate(run, cases, 'MC_C08', conventions=('canon',))
     rnd = random.Random(run.seed + 5)
+    # model-level theorem T6: TLC also assembles a copy of every graph with permuted vertex and edge lists and checks that its normal equations
+    # are those of the original with coordinates renamed (invariant PermutationEquivariant)
+    for c in cases:
+        nv, ne = len(c['verts']), len(c['edges'])
+        c['vperm'] = [x + 1 for x in rnd.sample(range(nv), nv)]
+        c['eperm'] = [x + 1 for x in rnd.sample(range(ne), ne)]
+    pairs = c03.evaluate(run, cases, 'MC_C08', conventions=('canon',), invariants=('Symmetric', 'PermutationEquivariant'))
+    for c in cases:
+        c.pop('vperm'), c.pop('eperm')
+    pairs = [({k: v for k, v in c.items() if k not in ('vperm', 'eperm')}, o) for c, o in pairs]
     kinds_of_variant = {}
     for c, obs_list in pairs:
         obs = obs_list[0]
